@@ -40,7 +40,7 @@ META = {
     'components_real': ['S3TapeCassette._get_id_prefixes / iter_recording_ids', 'S3BasicFacade.iter_keys last-modified predicate'],
     'components_stub': ['S3 bucket', 'clock'],
     'budgets': {'quick': {'seconds': 20}, 'thorough': {'seconds': 240}},
-    'required_probes': {'quick': ['grid_window'], 'thorough': ['grid_window', 'random_window', 'end_defaults_to_now', 'window_crosses_midnight_end_earlier_in_day', 'long_lived_cassette_lookup', 'random_order_window', 'interleaved_lookups_on_one_cassette', 'window_end_before_start', 'window_start_in_the_future']},
+    'required_probes': {'quick': ['grid_window'], 'thorough': ['grid_window', 'random_window', 'end_defaults_to_now', 'window_crosses_midnight_end_earlier_in_day', 'long_lived_cassette_lookup', 'random_order_window', 'interleaved_lookups_on_one_cassette', 'window_end_before_start', 'window_start_in_the_future', 'window_with_limit']},
 }
 
 
@@ -88,14 +88,14 @@ def interleaved_windows(run, tape, cas, recs, windows, now):
             check_window(run, cas, recs, a, b, now, label, got=got[n])
 
 
-def check_window(run, cas, recs, start, end, now, label, random_results=False, got=None):
+def check_window(run, cas, recs, start, end, now, label, random_results=False, got=None, limit=None):
     exp = set(rid for t, rid in recs if start <= t and t <= (end if end is not None else now.replace(microsecond=0)))
     try:
         if random_results:
             run.probe('random_order_window')
             label += ' (random order)'
         if got is None:
-            got = list(cas.iter_recording_ids('OpA', start_date=start, end_date=end, random_results=random_results))
+            got = list(cas.iter_recording_ids('OpA', start_date=start, end_date=end, random_results=random_results, limit=limit))
     except Exception as ex:
         run.violate('window_exact', 'lookup-raised:%s' % type(ex).__name__, '%s window %s .. %s raised %r' % (label, start, end, ex))
         return
@@ -108,6 +108,14 @@ def check_window(run, cas, recs, start, end, now, label, random_results=False, g
         run.nontrivial = True
     if len(got) != len(gs):
         run.violate('window_exact', 'duplicates', '%s window %s .. %s returned duplicates' % (label, start, end))
+    if limit is not None and not (gs - exp):
+        # with a limit: min(limit, matches) of the recordings inside the window, none from outside it
+        run.probe('window_with_limit')
+        want = min(limit, len(exp))
+        if len(gs) != want:
+            run.violate('window_exact', 'limit:%s' % ('too-few' if len(gs) < want else 'too-many'),
+                        '%s window %s .. %s with limit %d returned %d recordings, the window holds %d' % (label, start, end, limit, len(gs), len(exp)))
+        return
     if gs != exp:
         missing, extra = exp - gs, gs - exp
         times = dict((rid, t) for t, rid in recs)
@@ -190,7 +198,7 @@ def random_windows(tape, clock):
                         wins.append((min(c, d), max(c, d)))
                     interleaved_windows(run, tape, cas, recs, tape.shuffle(wins), now)
                 else:
-                    check_window(run, cas, recs, a, b, now, 'random', random_results=tape.draw(3) == 2)
+                    check_window(run, cas, recs, a, b, now, 'random', random_results=tape.draw(3) == 2, limit=tape.choice([None, None, 1, 2, 5]))
             run.subruns += 1
             run.probe('random_window')
         run.say('%d random windows over recordings at %s' % (run.subruns, [str(t) for t in instants][:6]))
